@@ -194,8 +194,7 @@ def scenarios(tier, seed):
     for mname in ("SteepestDescent", "RelaxedNewton"):
         quick.append(("descent", {"minimizer": mname, "limit": 1, "max_it": 2, "max_zoom": 1}))
         thorough.append(("descent", {"minimizer": mname, "limit": 2, "max_it": 1, "max_zoom": 1}))
-        # three minimiser iterations, or two with two line-search iterations each, do not finish within 40 minutes: not claimed
-    thorough.append(("descent", {"minimizer": "SteepestDescent", "limit": 2, "max_it": 2, "max_zoom": 1}))
+        # three minimiser iterations, or two with two line-search iterations each, do not finish / exceed the path limit: not claimed
     quick.append(("bfgs", {"n": 2, "hist": 2, "steps": 2}))
     quick.append(("bfgs", {"n": 2, "hist": 1, "steps": 2}))
     quick.append(("bfgs", {"n": 2, "hist": 2, "steps": 4}))       # the circular history buffer has wrapped at the last point
